@@ -52,7 +52,7 @@ def excludes_none(f, g):
 
 def analyse(ctx, replace=None, only=None):
     R = ctx.R
-    P = ctx.program([FILE], "ship", replace=replace)
+    P = ctx.program([FILE, "source/allocator.c"], "ship", replace=replace)
     fns = {f.name: f for f in P.functions_in("memtrace.c")}
     need = ["s_alloc_tracer_track", "s_alloc_tracer_untrack", "s_trace_mem_acquire", "s_trace_mem_release", "s_trace_mem_realloc", "s_trace_mem_calloc",
             "aws_mem_tracer_dump", "aws_mem_tracer_bytes", "aws_mem_tracer_count", "aws_mem_tracer_destroy", "s_alloc_tracer_init"]
@@ -71,6 +71,62 @@ def analyse(ctx, replace=None, only=None):
     locks(R, fns)
     level(R, fns)
     dump(R, fns)
+    dispatch(R, P)
+    frames(R, fns)
+
+
+def dispatch(R, P):
+    """VTABLE/dispatch: the tracer sees every request made through the public entry points: aws_mem_realloc reaches the
+    allocator's own mem_realloc (when it has one) for every request except the documented `new size 0 = release`; no
+    size-based shortcut is taken before the dispatch (a shrinking realloc changes the traced size)."""
+    f = P.fn("aws_mem_realloc")
+    if not R.require(f is not None, "aws_mem_realloc not found (source/allocator.c not analysed)"):
+        return
+    R.fn(f)
+    dom = dominators(f)
+    tests = [b.id for b in f.blocks.values() if b.cond is not None and any(x["k"] == "member" and x["f"] == "mem_realloc" for x in f.walk(f.d(b.cond), follow_refs=True)) and not any(x["k"] == "member" and x["f"] == "mem_acquire" for x in f.walk(f.d(b.cond), follow_refs=True))]
+    calls = [e for e in f.indirect_calls() if RU.indirect_via(f, e.node) == ("aws_allocator", "mem_realloc")]
+    if not R.require(len(tests) >= 1 and len(calls) == 1, "aws_mem_realloc: dispatch test / call not found"):
+        return
+    T = max([t for t in tests if t in dom.get(calls[0].blk, ())], key=lambda t: len(dom.get(t, ())))  # the innermost test before the call
+    bad = []
+    for r_ in f.returns():
+        if T in dom.get(r_.blk, ()):
+            continue
+        gs = [RU.cmp_norm(f, c_, p_) for c_, p_, b_ in RU.guards(f, r_, dom)]
+        txt = [(f.show(RU.uncast(f, g[0])), g[1], f.show(g[2]) if g[2] is not None else None) for g in gs if g]
+        okr = any(g and g[1] == "==" and f.show(RU.uncast(f, g[0])) == "newsize" and (g[2] is None or f.is_const(g[2]) == 0) for g in gs) and not any("oldsize" in (a or "") or "oldsize" in (b or "") or "ptr" in (a or "") for a, op, b in txt)
+        if not okr:
+            bad.append("line %d under %s" % (r_.node["loc"][0], [(f.show(RU.uncast(f, g[0])), g[1]) for g in gs if g]))
+    R.check(not bad, "VTABLE", "aws_mem_realloc:every-request-reaches-the-allocator", where(f, calls[0]), "the only return before the mem_realloc dispatch is the `newsize == 0` release",
+            "aws_mem_realloc returns before dispatching to the allocator's mem_realloc (%s): a tracing allocator is not told about that request, so its byte total keeps the old size" % "; ".join(bad))
+
+
+def frames(R, fns):
+    """TRACK/frames: the buffer handed to aws_backtrace has room for the number of frames asked for"""
+    import re
+    n = 0
+    for name, f in sorted(fns.items()):
+        for e in f.calls("aws_backtrace"):
+            buf = RU.uncast(f, RU.arg(f, e.node, 0))
+            while buf is not None and buf["k"] in ("decay", "cast"):
+                buf = f.d(buf["a"][0])
+            cnt = RU.arg(f, e.node, 1)
+            if buf is None or buf["k"] != "var":
+                continue
+            n += 1
+            t = f.unit.types[buf["t"]]
+            want = f.show(RU.uncast(f, cnt)).replace(" ", "").strip("()")
+            if t.get("arr") is not None:
+                cv = f.is_const(cnt)
+                ok, det = cv is not None and cv <= t["arr"], "a fixed array of %s entries for a count of %s" % (t["arr"], f.show(cnt))
+            else:
+                m = re.search(r"\[(.*)\]$", t.get("s", ""))
+                have = m.group(1).replace(" ", "").strip("()") if m else None
+                ok, det = have == want, "an array of [%s] entries for a count of %s" % (have, want)
+            R.check(ok, "TRACK", "%s:backtrace-buffer-holds-the-frames-asked-for" % name, where(f, e), "the frame buffer is declared with the very count passed to aws_backtrace",
+                    "aws_backtrace is given %s: with the largest frames_per_stack the capture writes return addresses past the array" % det)
+    R.require(n >= 1, "no aws_backtrace call with a local buffer found in memtrace.c")
 
 
 def single(R, f, callee, what):
@@ -299,6 +355,8 @@ def dump(R, fns):
 
 
 MUTANTS = [
+    {"name": "realloc-shrink-shortcut-before-dispatch", "file": "source/allocator.c", "expect": "VTABLE", "old": "    if (allocator->mem_realloc) {\n        void *newptr = allocator->mem_realloc(allocator, *ptr, oldsize, newsize);", "new": "    if (*ptr && newsize <= oldsize) {\n        return AWS_OP_SUCCESS;\n    }\n    if (allocator->mem_realloc) {\n        void *newptr = allocator->mem_realloc(allocator, *ptr, oldsize, newsize);"},
+    {"name": "frame-buffer-fixed-at-128", "file": FILE, "expect": "TRACK", "old": "        AWS_VARIABLE_LENGTH_ARRAY(void *, stack_frames, (FRAMES_TO_SKIP + tracer->frames_per_stack));", "new": "        void *stack_frames[128];"},
     {"name": "realloc-track-before-untrack", "file": FILE, "expect": "VTABLE",
      "old": "    s_alloc_tracer_untrack(tracer, old_ptr);\n    aws_mem_realloc(tracer->traced_allocator, &new_ptr, old_size, new_size);",
      "new": "    aws_mem_realloc(tracer->traced_allocator, &new_ptr, old_size, new_size);\n    s_alloc_tracer_untrack(tracer, old_ptr);"},
